@@ -828,4 +828,72 @@ theorem hist_total' {n : Nat} (hn : n ≠ 0) (l : List α) (hl : ∀ φ ∈ l, 0
     rw [this, List.length_cons]; omega
 end binsfloor
 
+/-! ### the arcs add up to the circle; bounds of the largest arc -/
+section circsum
+variable {α : Type} [Field α] [LinearOrder α] [IsStrictOrderedRing α]
+
+/-- consecutive differences telescope -/
+theorem gaps_sum_concat : ∀ (r : List α) (a b : α), (gaps (a :: r ++ [b])).sum = b - a := by
+  intro r
+  induction r with
+  | nil => intro a b; simp [gaps]
+  | cons c r ih =>
+    intro a b
+    show (gaps (a :: c :: (r ++ [b]))).sum = b - a
+    rw [gaps, List.sum_cons]
+    have := ih c b
+    simp only [List.cons_append] at this
+    rw [this]; ring
+
+/-- the arcs between consecutive observations make up the whole circle -/
+theorem circGaps_sum {s : List α} (h : s ≠ []) : (circGaps s).sum = 1 := by
+  cases s with
+  | nil => exact absurd rfl h
+  | cons a r =>
+    show (gaps (a :: r ++ [a + 1])).sum = 1
+    rw [gaps_sum_concat]; ring
+
+theorem sum_le_length_mul {l : List α} {m : α} (h : ∀ x ∈ l, x ≤ m) : l.sum ≤ l.length * m := by
+  induction l with
+  | nil => simp
+  | cons x r ih =>
+    have h1 := h x (List.mem_cons_self ..)
+    have h2 := ih (fun y hy => h y (List.mem_cons_of_mem _ hy))
+    simp only [List.sum_cons, List.length_cons, Nat.cast_add, Nat.cast_one]
+    linarith
+
+theorem le_sum_of_mem_nonneg {l : List α} (h : ∀ x ∈ l, 0 ≤ x) : 0 ≤ l.sum ∧ ∀ x ∈ l, x ≤ l.sum := by
+  induction l with
+  | nil => simp
+  | cons y r ih =>
+    have hy := h y (List.mem_cons_self ..)
+    obtain ⟨hr, ihr⟩ := ih (fun z hz => h z (List.mem_cons_of_mem _ hz))
+    simp only [List.sum_cons]
+    refine ⟨by linarith, ?_⟩
+    intro x hx
+    rcases List.mem_cons.mp hx with rfl | hx
+    · linarith
+    · have := ihr x hx
+      linarith
+
+/-- bounds of the definition: with `n ≥ 1` observations at phases in `[0,1)` the largest empty arc is at least
+`1/n` (pigeonhole on the circle) and at most the whole circle -/
+theorem circGap_bounds' (l : List α) (hl : ∀ φ ∈ l, 0 ≤ φ ∧ φ < 1) (g : α) (hg : circGap l = some g) :
+    1 ≤ (l.length : α) * g ∧ g ≤ 1 := by
+  unfold circGap at hg
+  rw [maxList_eq_some_iff] at hg
+  obtain ⟨hmem, hmax⟩ := hg
+  have hne : isort l ≠ [] := by
+    intro h0; rw [h0] at hmem; simp [circGaps] at hmem
+  have hsum := circGaps_sum hne
+  have hnn := circGaps_nonneg (isort_pairwise l)
+    (fun φ hφ => hl φ ((isort_perm l).mem_iff.mp hφ))
+  constructor
+  · have := sum_le_length_mul hmax
+    rw [hsum, circGaps_length, isort_length] at this
+    exact this
+  · have := (le_sum_of_mem_nonneg hnn).2 g hmem
+    rw [hsum] at this; exact this
+end circsum
+
 end Diag
